@@ -40,12 +40,19 @@ LEAF_CLASSES = {
     "notcall": "! idf(p{i})",
     "notor": "! p{i} || q{i}",
     "callor": "idf(p{i}) || [q{i}][0]",
+    # string literals whose content could derail a scanner looking for top-level operators: a literal ending in an (escaped) backslash, escaped quotes,
+    # brackets / operators / the other quote inside a literal - each followed by a loosely binding top-level operator
+    "bs-cond": '[p{i}, "corp\\\\"][0] ? q{i} : r{i}',
+    "q-or": '[p{i}, "a\\"b", \'c\\\'d\'][0] || q{i}',
+    "ops-or": '[p{i}, "(", "?", " || ", "[", \'"\', "\'"][0] || q{i}',
+    "sq-cond": "[p{i}, 'it\\'s \\\\'][0] ? q{i} : r{i}",
 }
-CLASS_ORDER = ["atom", "or", "cond", "and", "not", "rel", "notcall", "notor", "callor"]
+CLASS_ORDER = ["atom", "or", "cond", "and", "not", "rel", "notcall", "notor", "callor", "bs-cond", "q-or", "ops-or", "sq-cond"]
 
 
 def leaf_truth(cls: str, p: bool, q: bool, r: bool) -> bool:
-    return {"atom": p, "and": p and q, "or": p or q, "not": not p, "cond": q if p else r, "rel": p == q, "notcall": not p, "notor": (not p) or q, "callor": p or q}[cls]
+    return {"atom": p, "and": p and q, "or": p or q, "not": not p, "cond": q if p else r, "rel": p == q, "notcall": not p, "notor": (not p) or q, "callor": p or q,
+            "bs-cond": q if p else r, "q-or": p or q, "ops-or": p or q, "sq-cond": q if p else r}[cls]
 
 
 def realisations(cls: str, want: bool) -> List[Tuple[bool, bool, bool]]:
